@@ -4,6 +4,9 @@ import AutoVerif.Drv.C02
 import AutoVerif.Drv.C05
 import AutoVerif.Drv.C09
 import AutoVerif.Drv.C11
+import AutoVerif.Drv.C20
+import AutoVerif.Drv.C08
+import AutoVerif.Drv.C03
 import AutoVerif.Drv.C18
 import AutoVerif.Drv.C14
 import AutoVerif.Drv.C17
@@ -31,6 +34,9 @@ def dispatch (prop : String) (input impl : Json) : R Reply :=
   | "C05" => C05.handle input impl
   | "C09" => C09.handle input impl
   | "C11" => C11.handle input impl
+  | "C20" => C20.handle input impl
+  | "C08" => C08.handle input impl
+  | "C03" => C03.handle input impl
   | "C18" => C18.handle input impl
   | "C14" => C14.handle input impl
   | "C17" => C17.handle input impl
